@@ -157,7 +157,9 @@ def observables(m):
     obs = [('-LA("H+")', "pH", False, ()), ('-LA("e-")', "log", True, ()), ("MU", "rel", False, ()),
            ('LA("H2O")', "log", False, ()), ("TC", "abs", False, ()), ("RHO", "rel", False, ()), ("SC", "rel", False, ()),
            ("ALK", "alk", False, ()), ('TOT("water")', "ext", False, ()), ("SOLN_VOL", "ext", False, ()),
-           ("CHARGE_BALANCE", "cb", False, ())]
+           ("CHARGE_BALANCE", "cb", False, ()),
+           ('MOL("H+")', "rel", False, ()), ('LA("H+")', "log", False, ()),
+           ('MOL("OH-")', "rel", False, ()), ('LA("OH-")', "log", False, ())]
     for el in written:
         if el != "Alkalinity":
             obs.append(('TOT("%s")' % el, "rel", False, (el.split("(")[0],)))
@@ -168,7 +170,7 @@ def observables(m):
         obs.append(('SYS("%s")' % el, "ext", False, (el,)))
     nsp = 0
     for s in db.species.values():
-        if s.name in poised and s.name not in ("H2O", "e-") and nsp < 60:
+        if s.name in poised and s.name not in ("H2O", "e-", "H+", "OH-") and nsp < 60:
             po = s.name not in always
             obs.append(('MOL("%s")' % s.name, "rel", po, _els(s.elements)))
             obs.append(('LA("%s")' % s.name, "log", po, _els(s.elements)))
